@@ -566,6 +566,21 @@ func flatTokens(n *hclwrite.VerifNode) hclwrite.Tokens {
 
 // bodyUnterminated: the tokens in front of the place where an appended item
 // would go do not end a line (file without final newline, one-line block).
+// lastChildUnterminated: the last child of the body at path (post-state) does not end its line.
+func lastChildUnterminated(in *inst, path []int) (un bool) {
+	defer func() {
+		if recover() != nil {
+			un = false
+		}
+	}()
+	d := hclwrite.VerifDumpFile(in.f)
+	target, _ := bodyNodeAt(d, path)
+	if target == nil || len(target.Children) == 0 {
+		return false
+	}
+	return !endsLine(flatTokens(target.Children[len(target.Children)-1]))
+}
+
 func bodyUnterminated(in *inst, path []int) (un bool) {
 	defer func() { recover() }()
 	d := hclwrite.VerifDumpFile(in.f)
@@ -722,7 +737,8 @@ func bodyNodeAt(d *hclwrite.VerifNode, path []int) (cur *hclwrite.VerifNode, ope
 // put back - a newline after the opening brace of the body at path when the brace line is not terminated,
 // and (beforeLast) a newline in front of the body's last child, the item just appended - and that text
 // must parse and agree with the mirror in every respect checkReparse looks at.
-func repairedClean(b *inst, m *mirror, path []int, beforeLast bool) (clean bool) {
+func repairedClean(b *inst, m *mirror, path []int, beforeLast bool, afterLastOpt ...bool) (clean bool) {
+	afterLast := len(afterLastOpt) > 0 && afterLastOpt[0]
 	defer func() {
 		if recover() != nil {
 			clean = false
@@ -734,7 +750,7 @@ func repairedClean(b *inst, m *mirror, path []int, beforeLast bool) (clean bool)
 		return false
 	}
 	afterBrace := len(path) > 0 && !endsLine(open)
-	if !afterBrace && !beforeLast {
+	if !afterBrace && !beforeLast && !afterLast {
 		return false
 	}
 	nl := func() *hclwrite.Token { return &hclwrite.Token{Type: hclsyntax.TokenNewline, Bytes: []byte{'\n'}} }
@@ -750,6 +766,9 @@ func repairedClean(b *inst, m *mirror, path []int, beforeLast bool) (clean bool)
 					toks = append(toks, nl())
 				}
 				walk(c)
+				if afterLast && i == len(n.Children)-1 {
+					toks = append(toks, nl())
+				}
 			}
 			return
 		}
@@ -801,6 +820,7 @@ func anyMirror(b *mBody, f func(*mItem, *mBody) bool) bool {
 var fatalKinds = map[string]bool{
 	"remove-item-owning-brace-line-comment": true,
 	"clear-leaves-items":                    true, "append-after-unterminated-item": true, "reparse-error": true,
+	"append-block-without-trailing-newline": true,
 	"reparse-differs": true, "panic": true, "wf-broken": true, "reader-disagrees": true, "untouched-changed": true,
 }
 
@@ -1025,6 +1045,12 @@ func oracleStep(b *inst, m *mirror, before sigMap, touched map[any]bool, o *hop,
 				knownKind = "append-after-unterminated-item"
 			case braceComment && repairedClean(b, m, o.Path, false):
 				knownKind = "remove-item-owning-brace-line-comment"
+			case o.Kind == opAppendBlock && lastChildUnterminated(b, o.Path) && repairedClean(b, m, o.Path, unterminatedAppend, true):
+				// a detached block whose own text does not end with a line break (it was the last item of
+				// a file without a final newline) is appended: whatever follows it - the parent's closing
+				// brace - is glued to its closing brace. Known only when a line break after the appended
+				// block (and before it, if the body was unterminated too) repairs the output completely.
+				knownKind = "append-block-without-trailing-newline"
 			}
 		}
 		return knownKind
@@ -1207,7 +1233,7 @@ func lenBucket(n int) string {
 
 // the open findings (registered in known_findings.json under exactly these
 // kinds); every other kind is reported in full
-var knownKinds = map[string]bool{"append-after-unterminated-item": true, "remove-item-owning-brace-line-comment": true}
+var knownKinds = map[string]bool{"append-after-unterminated-item": true, "remove-item-owning-brace-line-comment": true, "append-block-without-trailing-newline": true}
 
 func runC12(cfg *hv.RunCfg) error {
 	rep := hv.NewReport("C12", cfg.Seed)
